@@ -94,10 +94,14 @@ def make_hooks(plan):
                 plan.registered_cleanups.append(cid)
                 context.add_cleanup(make_cleanup(plan, cid, c.get("raises")))
             exc = plan.hook_faults.get(k) or plan.hook_faults_named.get((name, ident))
-            if exc == "skip":
+            if exc in ("skip", "skip_mark"):
                 # documented run-time exclusion: the before-hook skips its own element
+                # (skip(), or mark_skipped() which "can be called before the element is executed")
                 if args and name in ("before_feature", "before_rule", "before_scenario"):
-                    args[0].skip()
+                    if exc == "skip":
+                        args[0].skip()
+                    else:
+                        args[0].mark_skipped()
             elif exc == "skip_feature":
                 # documented: feature.skip() may be called on a partly executed feature (fail-fast per feature)
                 if name == "after_scenario":
